@@ -7,7 +7,8 @@ PATCH=$(readlink -f "$1"); CID=$2; TIER=${3:-quick}
 ROOT=$(mktemp -d /tmp/vm_XXXXXX)
 trap 'git -C /repo worktree remove --force "$ROOT/repo" >/dev/null 2>&1; rm -rf "$ROOT"' EXIT
 git -C /repo worktree add --detach "$ROOT/repo" HEAD >/dev/null 2>&1
-git -C "$ROOT/repo" apply "$PATCH" 2>/dev/null || git -C "$ROOT/repo" apply --3way "$PATCH" 2>/dev/null || (cd "$ROOT/repo" && patch -p1 --fuzz=3 < "$PATCH" >/dev/null)
+git -C "$ROOT/repo" apply "$PATCH" 2>/dev/null || git -C "$ROOT/repo" apply --3way "$PATCH" 2>/dev/null || (cd "$ROOT/repo" && patch -p1 --fuzz=3 < "$PATCH" >/dev/null) || { echo "PATCH-FAILED $PATCH does not apply to $(git -C /repo rev-parse --short HEAD)"; exit 3; }
+if grep -rlq '^<<<<<<< ' "$ROOT/repo/pkg" "$ROOT/repo/cmd" 2>/dev/null; then echo "PATCH-FAILED $PATCH leaves conflict markers on $(git -C /repo rev-parse --short HEAD)"; exit 3; fi
 mkdir -p "$ROOT/verif"
 rsync -a --exclude work --exclude .git --exclude replays /verif/ "$ROOT/verif/"
 cd "$ROOT/verif"
